@@ -199,3 +199,9 @@ def obligations(ctx, cfg):
     for v in ('PullMessages', 'AcknowledgeMessages', 'ModifyDeadline', 'GetInfo', 'GetStats'):
         obs.append(ReceiveDropped(ctx, v))
     return obs
+
+
+def native_replay(ob_id, v):
+    if ob_id == 'C16.a-create_subscription' and v['label'] == 'half-created':
+        return {'judge': 'half_created', 'scenario': 'create_subscription_abandoned', 'lib': True}
+    return None
